@@ -100,7 +100,14 @@ func (l *Layout) HeadersEnd() int { return l.SecTableOff + 40*l.NumSections }
 // headers inside SizeOfHeaders, non-empty sections inside the file, after the
 // headers, not overlapping each other nor the certificate table; a certificate
 // table, if any, 8-aligned, a multiple of 8 long and ending at end of file.
-func (l *Layout) WellFormed(img []byte) error {
+func (l *Layout) WellFormed(img []byte) error { return l.wellFormed(img, true) }
+
+// WellFormedInput is WellFormed without the alignment demands on an existing certificate table (a table of any
+// size that ends the file): what a hashing tool may be handed, as opposed to what a signing tool has to produce.
+// The specification's hash is defined for such images all the same.
+func (l *Layout) WellFormedInput(img []byte) error { return l.wellFormed(img, false) }
+
+func (l *Layout) wellFormed(img []byte, alignedTable bool) error {
 	n := uint64(len(img))
 	if uint64(l.SizeOfHeaders) < uint64(l.HeadersEnd()) {
 		return fmt.Errorf("SizeOfHeaders %d before the end of the section table %d", l.SizeOfHeaders, l.HeadersEnd())
@@ -110,7 +117,7 @@ func (l *Layout) WellFormed(img []byte) error {
 		if uint64(l.CertVA)+uint64(l.CertSize) != n {
 			return fmt.Errorf("certificate table [%d,+%d) does not end at end of file %d", l.CertVA, l.CertSize, n)
 		}
-		if l.CertVA%8 != 0 || l.CertSize%8 != 0 {
+		if alignedTable && (l.CertVA%8 != 0 || l.CertSize%8 != 0) {
 			return fmt.Errorf("certificate table not 8-aligned")
 		}
 		contentEnd = uint64(l.CertVA)
